@@ -10,6 +10,10 @@ NOT_BUILT = "rules designed (DESIGN.md sections 3-4) but not built yet; not clai
 
 # property -> (technique, level text, level note, design ref)
 CLAIMED = {
+ "C13": ("writer/reader schema extraction on SSA (ordered wire-item sequences with Go types from the variadic write/read calls and element loops), struct-field coverage from go/types, tag-set agreement of the two type switches, call-graph reachability from string.dump to map iterations",
+         "Structural necessary conditions of the dump/load round trip: the reader takes the fields off the wire in the order and with the types the writer put them there, no field of the prototype is left out, both sides know the same constant tags and prefix, and no map iteration can make two dumps differ. Observational equivalence of the reloaded function is not decided.",
+         "Trusted: go/ssa, encoding/binary symmetry. Not decided: constant re-indexing, closure reconstruction, behaviour of the reloaded function.",
+         "DESIGN.md 3 (R-SIBLING serialisation part), 4 (C13)"),
  "C01": ("symbolic bit-vector evaluation of the opcode constructors and decoders; table/switch exhaustiveness and same-name agreement between token, operator, opcode and runtime-function tables read from the SSA of the package initialisers and the interpreter loop; implementer sets from go/types; must-pass-through checks for scope-exit clears; def-use provenance of private registers",
          "Structural agreements between the stages of the compile pipeline (encoder/decoder bit layout, operator tables, dispatch exhaustiveness, nil-continuation returns, scope-exit clears, private registers): each is a necessary condition — breaking one miscompiles some program. Agreement of the implemented semantics with the manual over all programs is not decided.",
          "Trusted: go/ssa, frozen operator tables confirmed by reading. Not decided: behavioural equivalence with the manual (values, evaluation order, call protocol, register allocation in general, jump resolution).",
